@@ -176,14 +176,18 @@ class Connection(object):
             return
         self._closed = True
         self._channel.close()
-        self._local_root.on_disconnect(self)
+        # a local close() may race with the peer's close request being served by another thread:
+        # whoever takes the root first finalizes, the other one has nothing left to do
+        local_root, self._local_root = self._local_root, None
+        if local_root is None:
+            return
+        local_root.on_disconnect(self)
         self._request_callbacks.clear()
         self._local_objects.clear()
         self._proxy_cache.clear()
         self._netref_classes_cache.clear()
         self._last_traceback = None
         self._remote_root = None
-        self._local_root = None
         # self._seqcounter = None
         # self._config.clear()
         del self._HANDLERS
